@@ -515,10 +515,16 @@ func replayEmit(o emitObl, runs []emitRun) map[string]interface{} {
 			reproduced, observed = true, "no six-character sample literal (and no use of the length 6) for the char[6] member"
 		}
 		show("base")
-	case "advance", "nested", "scope", "returns":
+	case "advance", "nested", "scope", "returns", "inline-defined":
 		var l []string
 		if pred == "returns" {
 			l = luaReturnsIssues(t("base"))
+		} else if pred == "inline-defined" {
+			for _, d := range analyseLua(t("base")).Issues["defined"] {
+				if strings.Contains(d, "field_under_test") {
+					l = append(l, d)
+				}
+			}
 		} else {
 			l = analyseLua(t("base")).Issues[pred]
 		}
